@@ -271,6 +271,34 @@ theorem pipe_protocol_total (cap : Nat) (hcap : 0 < cap) (P O E : List Nat) (c :
       | draining => obtain ⟨s', hs'⟩ := hd.1 (by simp [hp]); exact absurd hs' (hstuck s')
     exact ⟨hj, hd.2.2 hj⟩
 
+open Kernel in
+/-- `join()` entered while the child is still going to write, nobody reading (also the destructor): with
+    `join()` as coded (`joinProgram`: waitpid first, the pipe ends are closed afterwards), for every pipe
+    capacity, all child outputs that fit into the pipes, every exit code and every schedule: some step is
+    possible until `join()` has returned, every step decreases a measure, the child is never hit by SIGPIPE,
+    and when `join()` has returned it stored the child's exit code and the child ran to completion (all its
+    output is in the pipes) -/
+theorem join_returns_exit_code (cap : Nat) (O E : List Nat) (hO : O.length ≤ cap) (hE : E.length ≤ cap) (c : Nat)
+    (s : SysJ) (h : ReachJ (SysJ.init cap joinProgram O E c) s) :
+    (s.prog ≠ [] → ∃ s', StepJ s s') ∧
+    (∀ s', StepJ s s' → s'.measure < s.measure) ∧
+    s.cPhase ≠ .signalled ∧
+    (s.prog = [] → s.reaped = some c ∧ s.cPhase = .exited ∧ s.outQ = O ∧ s.errQ = E) :=
+  ⟨progressJ (InvJ.reach h) hO hE, fun _ hs => stepJ_decreases hs, (InvJ.reach h).not_sig, joinedJ (InvJ.reach h)⟩
+
+-- the order of the actions inside join() matters: with the pipe ends closed BEFORE waitpid there is a schedule
+-- in which the child is terminated by SIGPIPE and join() stores 0 instead of the exit code 7
+open Kernel in
+example : ∃ s, ReachJ (SysJ.init 8 [.closeOut, .closeErr, .closeIn, .wait] [104] [] 7) s ∧
+    s.prog = [] ∧ s.cPhase = .signalled ∧ s.reaped = some 0 :=
+  ⟨_, .step (.step (.step (.step (.step .init (.pCloseOut _ _ rfl)) (.cPipeOut _ rfl rfl (by decide)))
+      (.pCloseErr _ _ rfl)) (.pCloseIn _ _ rfl)) (.pWaitSignalled _ _ rfl rfl), rfl, rfl, rfl⟩
+
+-- the executable schedule used by the driver agrees: as coded 7, closed first 0
+example : (Kernel.SysJ.exec 64 (Kernel.SysJ.init 8 Kernel.joinProgram [104] [105] 7)) = (some 7, true) := by decide
+example : (Kernel.SysJ.exec 64 (Kernel.SysJ.init 8 [.closeOut, .closeErr, .closeIn, .wait] [104] [105] 7)) = (some 0, false) := by
+  decide
+
 -- the hypotheses are satisfiable: descriptors 3..8 on a table with 0, 1, 2; a three-step run
 example : (Kernel.Fresh.mk 3 4 5 6 7 8).Ok (fun x => if x < 3 then some (.other x) else none) := by
   refine ⟨by decide, ?_⟩
